@@ -300,7 +300,12 @@ def rule_B4(ctx):
     term = [n for n, lv, op, rhs in stores(f.body) if lv["k"] == "sub" and "s_n" in key(lv["idx"]) and cval(rhs) == 0]
     if ext and term and cval(ext[0]["args"][1]) is not None and cval(ext[0]["args"][1]) >= 1:
         facts = _facts(f, ext[0])
-        if any(c["k"] == "member" and c["field"] == "s" and not t for c, t in facts):
+        from ..util import nullness
+
+        def s_null(c, t):
+            nn = nullness(c, t)
+            return nn is not None and nn[0]["k"] == "member" and nn[0]["field"] == "s" and nn[1]
+        if any(s_null(c, t) for c, t in facts):
             ctx.ok("sbuf_buf", "unallocated buffer gets >= 1 byte before the terminator is stored")
         else:
             ctx.violation("sbuf_buf", "terminator store", "extension is not tied to s == NULL")
